@@ -256,3 +256,9 @@ def run_case(case, ctx):
                     ctx.violation("getcycle:not-a-real-reachable-cycle:" + feat,
                                   "keys=%r edges=%r returned %r" % (kv, sorted(edges), cyc))
     ctx.sample = {"cyclic": cyclic, "edges": sorted(edges)[:12], "toposort": out if out is None else [repr(k) for k in out][:8]}
+
+CLAIM = ("Every call of toposort/getcycle/isdag made on the generated graphs (all directed graphs on <=4 nodes "
+         "completely, sampled and planted-cycle graphs up to 60 nodes) is checked against an independent "
+         "reachability/cycle oracle; termination is observed with a logical line-count bound (sys.monitoring), "
+         "not a clock. Held means: no counterexample among the executions observed.")
+TECHNIQUE = "runtime monitoring: return-value oracle (transitive closure) + sys.monitoring step-bound on the real functions, complete small space + random"
